@@ -307,7 +307,7 @@ def gen_harness(items, prefix):
 
 # ------------------------------------------------------------------ actual (real tool chain)
 def actual(items, w2c2, workdir, cc="gcc", cflags=("-O1",), batch=24, w2c2_opts=(), run_timeout=120,
-           extra_defs=(), keep=False):
+           extra_defs=(), keep=False, extra_srcs=()):
     """Translate, compile and run.  Returns (obs dict keyed (id,k), problems list).
     problems: [(kind, item ids, text)] for translate/compile/run failures (observations in
     their own right for C10/C11; machinery trouble otherwise)."""
@@ -350,6 +350,12 @@ def actual(items, w2c2, workdir, cc="gcc", cflags=("-O1",), batch=24, w2c2_opts=
                 # keep only the module's public (prefixed) symbols global, so that several translated
                 # modules can live in one test program whatever their internal names are
                 rc, out, err = run(["objcopy", "-w", "-G", src[:-2].split("-")[0] + "*", ob], timeout=60, cwd=d)
+            objs.append(ob)
+        for n_, src in enumerate(extra_srcs):
+            if rc != 0:
+                break
+            ob = "extra%d.o" % n_
+            rc, out, err = run([cc, *cflags, "-w", *inc, "-c", src, "-o", ob], timeout=600, cwd=d)
             objs.append(ob)
         if rc == 0:
             rc, out, err = run([cc, *[f for f in cflags if f.startswith(("-fsanitize", "-m"))], *objs, "harness.o",
@@ -478,7 +484,8 @@ def replay(verdict, items, builds, sigfn=None, w2c2_flags=("-O1",), workdir=None
         for b in builds:
             act, problems = actual([dict(i) for i in usable], w2c2, os.path.join(wd, "run-" + b["name"]),
                                    cc=b.get("cc", "gcc"), cflags=b.get("cflags", ("-O1",)),
-                                   extra_defs=b.get("defs", ()), w2c2_opts=b.get("w2c2_opts", ()))
+                                   extra_defs=b.get("defs", ()), w2c2_opts=b.get("w2c2_opts", ()),
+                                   extra_srcs=b.get("extra_srcs", ()))
             for kind, ids, text in problems:
                 verdict.deviation("%s:%s" % (kind, b["name"]), {"items": ids[:5], "text": text, "build": b["name"]})
             for it in usable:
